@@ -9,7 +9,7 @@ From Coq Require Import Reals ZArith List Bool String.
 From PyLib Require Import PyVal PyBuiltins Ideal.
 From Spec Require Import AngleSpec.
 From Gen Require Import M_base M_Angle.
-From Proofs.C03 Require Import C03_defs C03_reduce C03_construct C03_forms C03_dms C03_ops.
+From Proofs.C03 Require Import C03_defs C03_reduce C03_construct C03_forms C03_dmsi C03_dms C03_dms_int C03_ops.
 From Proofs.C03 Require C03_grid.
 From PyLib Require B64 B64Verified.
 From Proofs.C03 Require C03_reduce_b64 C03_b64.
@@ -171,7 +171,11 @@ Qed.
 (* sexagesimal input (pieces given as floats) *)
 Theorem C03_sexagesimal_ideal :
   (* reduce_dms is the explicit branch function C03_dms.dms_spec of the absolute values, for ALL
-     real pieces (fractional, overflowing), with sign -1 iff any piece is negative *)
+     real pieces (fractional, overflowing), with sign -1 iff any piece is negative.
+     NOTE: dms_spec TRANSCRIBES the branches of the code (same Rfmod / Rtrunc steps): this part pins
+     the code and gives result shape + sign rule, it is NOT an independent specification of the
+     value.  The independent value statements are part 3 below and C03_sexagesimal_canonical_ideal
+     (canonical pieces only); for fractional / overflowing pieces none is proved. *)
   (forall d m s, Angle_reduce_dms Rops (VFloat d) (VFloat m) (VFloat s) = dms_tuple d m s) /\
   (* dms2deg = reduction of sign * (D + M/60 + c/3600) *)
   (forall d m s D M c sg,
@@ -193,6 +197,59 @@ Theorem C03_sexagesimal_ideal :
      mkA [VList [VFloat d; VFloat m]] = ang r).
 Proof.
   exact (conj reduce_dms_ideal (conj dms2deg_from_tuple (conj dms2deg_canonical (conj forms3 forms2)))).
+Qed.
+
+(* End-to-end, against the independent formula only (no dms_spec, no abstract hypothesis): the
+   constructor on CANONICAL sexagesimal pieces - whole degrees, whole minutes < 60, seconds < 60 -
+   given as ints (Angle(12, 30, 15), Angle(0, -30, 0)), as ints with float seconds
+   (Angle(12, 30, 15.5)) or as floats holding whole degrees / minutes: the Angle holds
+   red360 (+-(|d| + |m|/60 + |s|/3600)), negative iff any piece is negative; tuple and list forms
+   and the hours form (x 15, reduced again) likewise. *)
+Theorem C03_sexagesimal_canonical_ideal :
+  (forall d m s : Z, (Z.abs m < 60)%Z -> (Z.abs s < 60)%Z ->
+     let v := red360 (neg3Z d m s * (IZR (Z.abs d) + IZR (Z.abs m) / 60 + IZR (Z.abs s) / 3600)) in
+     Angle_dms2deg Rops (VInt d) (VInt m) (VInt s) = VFloat v /\
+     mkA [VInt d; VInt m; VInt s] = ang v /\
+     mkA [VTuple [VInt d; VInt m; VInt s]] = ang v /\
+     mkA [VList [VInt d; VInt m; VInt s]] = ang v /\
+     mkA_kw [VInt d; VInt m; VInt s] "ra" = ang (red360 (v * 15))) /\
+  (forall (d m : Z) (s : R), (Z.abs m < 60)%Z -> Rabs s < 60 ->
+     let v := red360 (neg3 d m s * (IZR (Z.abs d) + IZR (Z.abs m) / 60 + Rabs s / 3600)) in
+     Angle_dms2deg Rops (VInt d) (VInt m) (VFloat s) = VFloat v /\
+     mkA [VInt d; VInt m; VFloat s] = ang v /\
+     mkA [VTuple [VInt d; VInt m; VFloat s]] = ang v /\
+     mkA [VList [VInt d; VInt m; VFloat s]] = ang v /\
+     mkA_kw [VInt d; VInt m; VFloat s] "ra" = ang (red360 (v * 15))) /\
+  (forall (d m s : R) (n k : Z), Rabs d = IZR n -> Rabs m = IZR k -> (k < 60)%Z -> Rabs s < 60 ->
+     let v := red360 (sign_of_pieces d m s * dms_abs d m s) in
+     mkA [VFloat d; VFloat m; VFloat s] = ang v /\
+     mkA [VTuple [VFloat d; VFloat m; VFloat s]] = ang v /\
+     mkA [VList [VFloat d; VFloat m; VFloat s]] = ang v /\
+     mkA_kw [VFloat d; VFloat m; VFloat s] "ra" = ang (red360 (v * 15))).
+Proof.
+  split; [|split].
+  - intros d m s Hm Hs v. pose proof (dms2deg_int_int d m s Hm Hs) as H.
+    split; [exact H | exact (forms3_III d m s _ H)].
+  - intros d m s Hm Hs v. pose proof (dms2deg_int_float d m s Hm Hs) as H.
+    split; [exact H | exact (forms3_IIF d m s _ H)].
+  - intros d m s n k Hd Hmm Hk Hs v.
+    exact (forms3 d m s _ (dms2deg_canonical d m s n k Hd Hmm Hk Hs)).
+Qed.
+
+(* further operator forms: % by a positive int; zero modulus in every form; <= >= != against a float *)
+Theorem C03_operators_more_ideal : forall a ta tb y p,
+  Angle___mod__ Rops (angT a ta) (VInt (Z.pos p)) = ang (red360 (sgn a * Rfmod (Rabs a) (IZR (Z.pos p)))) /\
+  Angle___imod__ Rops (angT a ta) (VFloat 0) = VErr ZeroDivisionError /\
+  Angle___mod__ Rops (angT a ta) (VInt 0) = VErr ZeroDivisionError /\
+  Angle___mod__ Rops (angT a ta) (angT 0 tb) = VErr ZeroDivisionError /\
+  Angle___rmod__ Rops (angT 0 ta) (VFloat y) = VErr ZeroDivisionError /\
+  Angle___ge__ Rops (angT a ta) (VFloat y) = VBool (negb (Rltb a y)) /\
+  Angle___le__ Rops (angT a ta) (VFloat y) = VBool (negb (Rltb y a)) /\
+  Angle___ne__ Rops (angT a ta) (VFloat y) = VBool (negb (Rltb (Rabs (a - y)) ta)).
+Proof.
+  intros a ta tb y p.
+  exact (conj (mod_AI a ta p) (conj (imod_AF_zero a ta) (conj (mod_AI_zero a ta) (conj (mod_AA_zero a ta tb)
+        (conj (rmod_AF_zero ta y) (conj (ge_AF a ta y) (conj (le_AF a ta y) (ne_AF a ta y)))))))).
 Qed.
 
 (* binary64 instance on the explicit finite grid (see C03_grid.v for the checkers and the grid) *)
@@ -261,3 +318,5 @@ Redirect "C03_grid_b64.assumptions" Print Assumptions C03_grid_b64.
 Redirect "C03_reduce_deg_b64.assumptions" Print Assumptions C03_reduce_deg_b64.
 Redirect "C03_construct_b64.assumptions" Print Assumptions C03_construct_b64.
 Redirect "C03_to_positive_b64.assumptions" Print Assumptions C03_to_positive_b64.
+Redirect "C03_sexagesimal_canonical_ideal.assumptions" Print Assumptions C03_sexagesimal_canonical_ideal.
+Redirect "C03_operators_more_ideal.assumptions" Print Assumptions C03_operators_more_ideal.
